@@ -55,18 +55,30 @@ def r1_non_interference(ctx, res):
                          f"depends on the other specifiers of the list (e.g. 'a ab:*' makes the bare id `a` select every version of a), "
                          f'so a list is not the union of its specifiers')
     # variables that carry state from one iteration into the SQL of the next
-    assigned_before = {t.id for n in f.node.body if isinstance(n, ast.Assign) and n.lineno < lp.lineno for t in n.targets if isinstance(t, ast.Name)}
+    assigned_before = {t.id for n in f.node.body if isinstance(n, (ast.Assign, ast.AnnAssign)) and n.lineno < lp.lineno
+                       for t in (n.targets if isinstance(n, ast.Assign) else [n.target]) if isinstance(t, ast.Name)}
     carried = set()
     for st in lp.body:
         for n in ast.walk(st):
             if isinstance(n, ast.AugAssign) and isinstance(n.target, ast.Name) and n.target.id in assigned_before:
                 carried.add(n.target.id)
+    for st in lp.body:
+        for n in ast.walk(st):
+            if isinstance(n, ast.Call) and isinstance(n.func, ast.Attribute) and isinstance(n.func.value, ast.Name) \
+                    and n.func.value.id in assigned_before and n.func.attr in ('append', 'extend', 'add', 'update', 'insert', 'setdefault'):
+                carried.add(n.func.value.id)
     key = 'no-carried-state'
     res.inst(key, f.module.loc(lp), f'variables updated across iterations: {sorted(carried)}')
     for c in sorted(carried):
         uses = [n for st in lp.body for n in ast.walk(st) if isinstance(n, (ast.JoinedStr, ast.Dict)) and c in {x.id for x in ast.walk(n) if isinstance(x, ast.Name)}]
-        if uses:
-            res.find(key + ':' + c, f.module.loc(lp), f'`{c}` accumulates across specifiers and flows into the statement of later specifiers')
+        uses += [n for st in lp.body for n in ast.walk(st) if isinstance(n, ast.Call) and isinstance(n.func, ast.Attribute)
+                 and n.func.attr in ('execute', 'executemany') and c in {x.id for a in n.args for x in ast.walk(a) if isinstance(x, ast.Name)}]
+        tests = [n for st in lp.body for n in ast.walk(st) if isinstance(n, (ast.If, ast.IfExp, ast.comprehension))
+                 and c in {x.id for x in ast.walk(n.test if not isinstance(n, ast.comprehension) else ast.Tuple(elts=list(n.ifs), ctx=ast.Load())) if isinstance(x, ast.Name)}]
+        if uses or tests:
+            res.find(key + ':' + c, f.module.loc(lp), f'`{c}` accumulates across the specifiers of the list and influences what later specifiers '
+                                                      f'select (statement text, parameters or a filter): a list is no longer the union of what '
+                                                      f'its specifiers select one by one')
 
 
 def r2_limit_order(ctx, res):
@@ -179,9 +191,15 @@ def r4_error_vs_empty(ctx, res):
         res.find(key, rm.module.loc(rm.node), 'remove() no longer selects lexicons with find_lexicons')
 
 
+def r5_selection_before_write(ctx, res):
+    from .c05 import r9_selection_materialised
+    r9_selection_materialised(ctx, res)
+
+
 RULES = [
     ('C08-R1', r1_non_interference, 2),
     ('C08-R2', r2_limit_order, 2),
     ('C08-R3', r3_match_shape, 3),
     ('C08-R4', r4_error_vs_empty, 6),
+    ('C08-R5', r5_selection_before_write, 3),
 ]
